@@ -1,11 +1,10 @@
 import logging
-import re
 from typing import Any
 
 from pyopenapi_gen import IROperation
 
 from ....context.render_context import RenderContext
-from ....core.utils import Formatter, NameSanitizer
+from ....core.utils import Formatter
 from ....core.writers.code_writer import CodeWriter
 from ....types.strategies import ResponseStrategyResolver
 from ..processors.import_analyzer import EndpointImportAnalyzer
@@ -149,12 +148,28 @@ class EndpointMethodGenerator:
             writer.write_line(f"- {content_type}")
         writer.write_line('"""')
 
-        # Generate URL construction with sanitized path variables
-        formatted_path = re.sub(
-            r"{([^}]+)}", lambda m: f"{{{NameSanitizer.sanitize_method_name(str(m.group(1)))}}}", op.path
+        # Generate URL, query, header and cookie parameters the way the single-content method does
+        # (no body variables: each branch of the runtime dispatch serializes its own content-type parameter)
+        non_body_params = [p for p in ordered_params if p["param_in"] != "body"]
+        has_header_params = self.url_args_generator.generate_url_and_args(
+            writer, op, context, non_body_params, None, None
         )
-        writer.write_line(f'url = f"{{self.base_url}}{formatted_path}"')
-        writer.write_line("")
+        common_args = [
+            "params=params" if any(p["param_in"] == "query" for p in non_body_params) else "params=None",
+            "headers=headers" if has_header_params else "headers=None",
+        ]
+        if any(p["param_in"] == "cookie" for p in non_body_params):
+            common_args.append("cookies=cookies")
+
+        def write_request_call(body_arg: str | None) -> None:
+            args = common_args[:1] + ([body_arg] if body_arg else []) + common_args[1:]
+            writer.write_line("response = await self._transport.request(")
+            writer.indent()
+            writer.write_line(f'"{op.method.value.upper()}", url,')
+            for i, arg in enumerate(args):
+                writer.write_line(arg if i == len(args) - 1 else f"{arg},")
+            writer.dedent()
+            writer.write_line(")")
 
         # Generate runtime dispatch logic
         writer.write_line("# Runtime dispatch based on content type")
@@ -176,34 +191,13 @@ class EndpointMethodGenerator:
             # Generate request call for this content type
             if content_type == "application/json":
                 writer.write_line(f"json_body = DataclassSerializer.serialize({param_info['name']})")
-                writer.write_line("response = await self._transport.request(")
-                writer.indent()
-                writer.write_line(f'"{op.method.value.upper()}", url,')
-                writer.write_line("params=None,")
-                writer.write_line("json=json_body,")
-                writer.write_line("headers=None")
-                writer.dedent()
-                writer.write_line(")")
+                write_request_call("json=json_body")
             elif content_type == "multipart/form-data":
                 # Files dict is already in correct format for httpx - pass directly
-                writer.write_line("response = await self._transport.request(")
-                writer.indent()
-                writer.write_line(f'"{op.method.value.upper()}", url,')
-                writer.write_line("params=None,")
-                writer.write_line(f"files={param_info['name']},")
-                writer.write_line("headers=None")
-                writer.dedent()
-                writer.write_line(")")
+                write_request_call(f"files={param_info['name']}")
             else:
                 writer.write_line(f"data = DataclassSerializer.serialize({param_info['name']})")
-                writer.write_line("response = await self._transport.request(")
-                writer.indent()
-                writer.write_line(f'"{op.method.value.upper()}", url,')
-                writer.write_line("params=None,")
-                writer.write_line("data=data,")
-                writer.write_line("headers=None")
-                writer.dedent()
-                writer.write_line(")")
+                write_request_call("data=data")
 
             writer.dedent()
 
@@ -214,13 +208,7 @@ class EndpointMethodGenerator:
             writer.write_line('raise ValueError("One of the content-type parameters must be provided")')
         else:
             # The request body is optional: send the request without a body
-            writer.write_line("response = await self._transport.request(")
-            writer.indent()
-            writer.write_line(f'"{op.method.value.upper()}", url,')
-            writer.write_line("params=None,")
-            writer.write_line("headers=None")
-            writer.dedent()
-            writer.write_line(")")
+            write_request_call(None)
         writer.dedent()
         writer.write_line("")
 
